@@ -67,6 +67,13 @@ def gen(ctx):
     for _ in range(N):
         n = rnd.randrange(5, 60)
         reqs.append("store " + " ".join(f"{rnd.choice('af')}:{i + 1}:{rnd.choice(CLASSES + [3, 4])}" for i in range(n)))
+    # long histories: thousands of values (a storage that changes its layout past some size must keep every token's meaning)
+    for n in ([1030, 2100] if ctx.tier == "quick" else [1030, 2100, 4100, 5000, 9000]):
+        ops = []
+        for i in range(n):
+            k = "f" if (i % 97 == 5) else "a"
+            ops.append(f"{k}:{i + 1}:{rnd.choice([0, 1000 + i, 1000 + i, 100 + (i % 7)])}")
+        reqs.append("store " + " ".join(ops))
     fl = [0, 0x80000000, 0x7fc00000, 0x7fc00001, 0xffc00000, 0x3f800000, 0xbf800000, 0x7f800000, 1, 0x7f7fffff]
     for _ in range(N):
         n = rnd.randrange(1, 40)
